@@ -31,6 +31,12 @@ P = dict(
                 shards={"quick": 2, "thorough": 4}) for r in (0, 1, 2, 3)]
         + [Unit(f"C14_cmp_{r}", "harness/C14_cmp.cpp", defs=[f"-DC14_ROWS={r}"], flavours=_FL,
                 shards={"quick": 2, "thorough": 4}) for r in (0, 1, 2, 3)]
+        # character-like integer types for the families that accept them; __int128 / unsigned __int128 for abs and gcd
+        + [Unit("C14_arith_chars", "harness/C14_arith.cpp", defs=["-DC14_PART=4"], flavours=_FL, shards={"quick": 2, "thorough": 4}),
+           Unit("C14_wide", "harness/C14_wide.cpp", flavours=_FL, shards={"quick": 4, "thorough": 8}),
+           # ipow with exponents >= 2^31 (bases 0, 1, -1): the library loops exponent times, so -O2 without sanitizers, one call group per case
+           Unit("C14_ipow_huge", "harness/C14_arith.cpp", defs=["-DC14_PART=5"], flavours={"quick": ["plain-cc"], "thorough": ["plain-cc"]},
+                shards={"quick": 6, "thorough": 12})]
         # thorough only, -O2 without sanitizers: every pair of 16-bit values
         + [Unit("C14_arith_bulk", "harness/C14_arith.cpp", defs=["-DC14_PART=3"], flavours={"quick": [], "thorough": ["plain-cc"]},
                 shards={"quick": 1, "thorough": 16}),
